@@ -142,7 +142,8 @@ def execute(case: dict) -> dict:
     import shapely
     from emsarray.transect import Transect
     w = case["world"]
-    ds = W.build(w)
+    from .. import viafile
+    ds = viafile.hold_ds(w, W.build(w))
     conv = W.bind(w, ds)
     tw = CD.tlc_world(w, ds)
     tw["cells"] = cells_units(w)
@@ -181,3 +182,7 @@ def _f9(rec: dict, failing: list) -> bool:
 
 
 SIGNATURES = {"F9": _f9}
+
+
+from .. import viafile as _viafile  # noqa: E402
+execute = _viafile.closing(execute)
